@@ -37,6 +37,8 @@ func c17(c *Ctx) {
 		{fn: "rtp.(*PlayoutDelayExtension).Unmarshal", want: []int{3}, why: "two 12-bit delays"},
 		{fn: "rtp.(*TransportCCExtension).Unmarshal", want: []int{2}, why: "16-bit sequence number"}})
 	r.Floor("BITS table rows checked", nb, 28)
-	r.Floor("decoded fields checked by RESET.R1", nf, 5)
+	if c.resetUndecided == 0 {
+		r.Floor("decoded fields checked by RESET.R1", nf, 5)
+	}
 	_ = core.FuncName
 }
